@@ -133,6 +133,11 @@ pub fn run(op: &str, rd: &mut Rd) -> Option<R> {
             Ok(format!("{} {} {} {} {} {} {} {}", e_ts(a * b), e_pt(a * p), e_affine(a.into()), e_ts(a.inverse()), e_pt(Affine::from(a) * p),
                 e_ts(TranslateScale::from_scale_about(a.scale, p)), e_ts(a + b.translation), e_ts(a - b.translation)))
         })(),
+        "ts.scalar" => (|| -> R {
+            // k * ts, its affine form, k * Affine::from(ts)
+            let k = rd.num()?; let a = rd.tscale()?;
+            Ok(format!("{} {} {}", e_ts(k * a), e_affine((k * a).into()), e_affine(k * Affine::from(a))))
+        })(),
         "ts.shapes" => (|| -> R {
             let a = rd.tscale()?; let l = rd.line()?; let r = rd.rect()?; let q = rd.quad()?; let c = rd.cubic()?;
             Ok(format!("{} {} {} {}", e_line(a * l), e_rect(a * r), e_quad(a * q), e_cubic(a * c)))
